@@ -199,6 +199,16 @@ type Conn struct {
 	closed   bool
 	Seg      int
 	Reads    int
+	// EOFJoin: the Read that takes the last queued bytes of a stream whose writer is gone reports io.EOF together
+	// with them (as an io.Reader may)
+	EOFJoin bool
+	// a hold armed with ArmHold: reads stop short of holdAt (counted in bytes read so far) and the bytes behind it
+	// become readable only holdFor after the reader got there
+	readTotal int64
+	holdAt    int64
+	holdFor   time.Duration
+	holdUntil time.Time
+	holdArmed bool
 	// WriteErrAfter makes the n-th Write (1-based) and all later ones fail (0: never).
 	WriteErrAfter int
 	writes        int
@@ -275,6 +285,30 @@ func (c *Conn) Read(b []byte) (int, error) {
 	if c.in.q.n == 0 {
 		return 0, io.EOF
 	}
+	if c.holdArmed && c.readTotal == c.holdAt {
+		// the sender pauses here
+		if c.holdUntil.IsZero() {
+			c.holdUntil = vs.Now().Add(c.holdFor)
+		}
+		until := c.holdUntil
+		if !vs.Now().Before(until) {
+			c.holdArmed = false
+		} else {
+			dl := until
+			timeout := false
+			if !c.rdl.IsZero() && c.rdl.Before(until) {
+				dl, timeout = c.rdl, true
+			}
+			vs.Block(func() bool { return c.closed }, dl)
+			if c.closed {
+				return 0, net.ErrClosed
+			}
+			if timeout {
+				return 0, ErrTimeout
+			}
+			c.holdArmed = false
+		}
+	}
 	if len(b) == 0 {
 		return 0, nil
 	}
@@ -294,8 +328,22 @@ func (c *Conn) Read(b []byte) (int, error) {
 	if n > len(b) {
 		n = len(b)
 	}
+	if c.holdArmed && c.readTotal < c.holdAt && int64(n) > c.holdAt-c.readTotal {
+		n = int(c.holdAt - c.readTotal)
+	}
 	c.in.q.take(b[:n])
+	c.readTotal += int64(n)
+	if c.EOFJoin && c.in.q.n == 0 && (c.in.wclosed || c.in.cut) {
+		return n, io.EOF
+	}
 	return n, nil
+}
+
+// ArmHold makes the bytes that lie k bytes ahead of what has been read so far arrive d late.
+//
+//go:norace
+func (c *Conn) ArmHold(k int, d time.Duration) {
+	c.holdAt, c.holdFor, c.holdUntil, c.holdArmed = c.readTotal+int64(k), d, time.Time{}, true
 }
 
 //go:norace
